@@ -48,6 +48,15 @@ impl Ctx {
     /// A correspondence case: the model is asked `req`, the implementation answered `imp`.
     pub fn case(&mut self, attrs: Value, req: String, imp: String, nontrivial: bool) {
         debug_assert!(!req.contains('\n'));
+        // C07 oracle, applied uniformly: a decoder-side operation that panics or never ends on some
+        // bytes is a violation whatever the model says.
+        let op = req.split(' ').next().unwrap_or("");
+        let decoder = op.ends_with(".dec") || op.starts_with("chunk.dec") || op.starts_with("chunks.") || op.starts_with("archive.")
+            || matches!(op, "multipart.read" | "entry.parse" | "entry.open" | "entry.reser" | "entry.reser2" | "solid.iter" | "flatr" | "cbcr" | "ctrr" | "utf8" | "name.sanitize" | "ref.normalize" | "fhed.reenc" | "shed.reenc");
+        if decoder && (imp.starts_with("panic") || imp.contains(" end=panic") || imp.contains("end=hang")) {
+            let what = if imp.contains("end=hang") { "a reader does not terminate on these bytes" } else { "a reader panicked on these bytes" };
+            self.violations.push(json!({"property": "C07", "what": what, "attrs": {"req": req.chars().take(4000).collect::<String>(), "impl": imp.chars().take(400).collect::<String>()}, "family": self.family}));
+        }
         self.cases.push(Case { attrs, req, imp, nontrivial });
     }
 
